@@ -432,11 +432,20 @@ def r3_once(program, rep, B):
                    "duplicated reply would invoke the callback twice")
     okr = False
     if SEQ is not None:
-        okr = REPLY[0] == "callv" and REPLY[1][0] == "attr" and \
-            REPLY[1][2] == "recv" and SEQ[0] == "comp" and SEQ[2] == 1 and \
-            plain(SEQ[1])[0] == "call" and \
-            plain(SEQ[1])[1][-1] == "unpack_from" and \
-            len(SEQ[1][2]) >= 2 and REPLY in (SEQ[1][2][0], SEQ[1][2][1])
+        if not (REPLY[0] == "callv" and REPLY[1][0] == "attr" and
+                REPLY[1][2] == "recv"):
+            # the datagram reaches the callback through something else than
+            # the value of sock.recv() (a generator that drains the socket,
+            # a helper): which datagram it is is not read off that form
+            raise AnalysisError("send_scp_burst: the reply handed to the "
+                                "callback is not the value of a recv() call "
+                                "in this function; not followed")
+        if not (SEQ[0] == "comp" and plain(SEQ[1])[0] == "call" and
+                plain(SEQ[1])[1][-1] == "unpack_from" and
+                len(SEQ[1][2]) >= 2):
+            raise AnalysisError("send_scp_burst: the sequence number is not "
+                                "an item of one unpack_from(); not followed")
+        okr = SEQ[2] == 1 and REPLY in (SEQ[1][2][0], SEQ[1][2][1])
     rep.check(okr, "C06-R3", inst, "the callback receives the bytes of "
               "the very datagram whose sequence number selected the "
               "entry", construct="reply bytes = datagram of seq",
